@@ -50,6 +50,21 @@ class Recorder:
             self.log.append(ev)
 
 
+class VTask(asyncio.Task):
+    """a Task whose hash is chosen by the harness (equality stays identity)"""
+
+    def __new__(cls, coro, *, vh=0, **kw):
+        obj = super().__new__(cls)
+        obj._vh = vh
+        return obj
+
+    def __init__(self, coro, *, vh=0, **kw):
+        super().__init__(coro, **kw)
+
+    def __hash__(self):
+        return self._vh
+
+
 def exc_tag(rec, e, sched_hid):
     """identity tag of an exception object: 2*j for the exception raised by atomic job j,
     2*s+1 for the TimeoutError raised first by scheduler s"""
@@ -316,8 +331,9 @@ def run_config(cfg):
             objs = build(cfg, rec)
             root = objs[0]
 
+            counter = [0]
+
             def factory(lp, coro, **kw):
-                t = asyncio.Task(coro, loop=lp, **kw)
                 code = getattr(coro, "cr_code", None)
                 name = code.co_name if code else "?"
                 fl = coro.cr_frame.f_locals if getattr(coro, "cr_frame", None) is not None else {}
@@ -329,6 +345,15 @@ def run_config(cfg):
                     info = ("root", fl["self"].hid)
                 else:
                     info = ("other", -1)
+                # the iteration order of sets of tasks (asyncio.wait results, the sets that are
+                # cancelled) must not depend on memory addresses: hash = f(configured hash, role)
+                counter[0] += 1
+                if info[1] >= 0:
+                    vh = (cfg["jobs"][info[1]].get("hash", 0) * 131 + info[1] * 7 +
+                          {"body": 1, "shut": 3, "root": 5}[info[0]]) * 2654435761 % (1 << 31)
+                else:
+                    vh = (counter[0] * 40503 + 11) % (1 << 31)
+                t = VTask(coro, vh=vh, loop=lp, **kw)
                 rec.task_info[id(t)] = info
                 rec.keep.append(t)
                 if info[0] in ("body", "shut"):
